@@ -118,6 +118,14 @@ def run(tier, seed, work, replay):
             extra.append({"origin": c["origin"] + "+restarts", "steps": st2})
     cases = cases + extra
     cov["behaviours_with_restarts"] = len(extra)
+    # the htpasswd file back-end: the file is edited, or replaced by a copy that keeps an older / the same timestamp
+    HF = lambda users, mt: {"op": "htfile", "users": users, "mtime": mt}
+    HL = lambda u, pw: {"op": "htlogin", "user": u, "pw": pw}
+    for mt in ("now", "older", "same"):
+        cases.append({"kind": "htpasswd", "origin": "htpasswd-" + mt, "steps": [
+            HF({"alice": "p1", "bob": "p2"}, "now"), HL("alice", "p1"), HL("alice", "p2"), HL("bob", "p2"),
+            HF({"alice": "p3"}, mt), HL("alice", "p1"), HL("alice", "p3"), HL("bob", "p2"),
+            HF({"bob": "p1"}, mt), HL("alice", "p3"), HL("bob", "p1"), HF({"alice": "p1", "bob": "p2"}, mt), HL("alice", "p1"), HL("bob", "p1")]})
     cp = work.path("cases.ndjson")
     E.write_ndjson(cp, cases)
     known = E.load_known()
